@@ -132,22 +132,22 @@ func diffInventory(a, b []string) string {
 	return fmt.Sprintf("missing after decryption %v, new/changed after decryption %v", missing, extra)
 }
 
-type c06Frag struct {
-	from, to int
-	seq      uint32
+type C06Frag struct {
+	From, To int
+	Seq      uint32
 }
 
-type c06Prod struct {
-	codec     string
-	media     string
-	trackID   uint32
-	log       []work.SampleRec
-	clearInit []byte
-	clearSegs [][]byte
-	encInit   []byte
-	encSegs   [][]byte
-	frags     [][]c06Frag
-	foreign   []string
+type C06Prod struct {
+	Codec     string
+	Media     string
+	TrackID   uint32
+	Log       []work.SampleRec
+	ClearInit []byte
+	ClearSegs [][]byte
+	EncInit   []byte
+	EncSegs   [][]byte
+	Frags     [][]C06Frag
+	Foreign   []string
 }
 
 func randIV(t *sim.Tape, rnd *sim.Rand) []byte {
@@ -183,7 +183,7 @@ func randIV(t *sim.Tape, rnd *sim.Rand) []byte {
 }
 
 // c06Produce builds a clear single-track production, encodes it, encrypts it in place and encodes it again.
-func c06Produce(r *sim.Run, scheme string, key, iv []byte) (*c06Prod, error) {
+func c06Produce(r *sim.Run, scheme string, key, iv []byte) (*C06Prod, error) {
 	// The clear production is built from a private tape seeded by one draw, so that the same history can be
 	// built twice: once to obtain the clear encoding, once to be encrypted without ever having been encoded.
 	seed := uint64(r.T.Draw(1 << 30))
@@ -207,14 +207,14 @@ func c06Produce(r *sim.Run, scheme string, key, iv []byte) (*c06Prod, error) {
 		}
 		return ib.Bytes(), sb, nil
 	}
-	if p.clearInit, p.clearSegs, err = enc("clear", cinit, csegs); err != nil {
+	if p.ClearInit, p.ClearSegs, err = enc("clear", cinit, csegs); err != nil {
 		return nil, err
 	}
 	var init *mp4.InitSegment
 	var segs []*mp4.MediaSegment
 	if flow == 0 {
-		stream := append([]byte(nil), p.clearInit...)
-		for _, s := range p.clearSegs {
+		stream := append([]byte(nil), p.ClearInit...)
+		for _, s := range p.ClearSegs {
 			stream = append(stream, s...)
 		}
 		f, err := decodeWith(r, "clear stream", stream, r.T.Bool(), sim.DrawDelivery(r.T))
@@ -253,16 +253,23 @@ func c06Produce(r *sim.Run, scheme string, key, iv []byte) (*c06Prod, error) {
 			r.Event("EncryptFragment")
 		}
 	}
-	if p.encInit, p.encSegs, err = enc("encrypted", init, segs); err != nil {
+	if p.EncInit, p.EncSegs, err = enc("encrypted", init, segs); err != nil {
 		return nil, err
 	}
 	return p, nil
 }
 
+// C06Setup / C06Produce / C06RandIV: exported for the tool harnesses of cmd/mp4ff-encrypt and cmd/mp4ff-decrypt.
+func C06Setup() error { return c06Setup() }
+func C06Produce(r *sim.Run, scheme string, key, iv []byte) (*C06Prod, error) {
+	return c06Produce(r, scheme, key, iv)
+}
+func C06RandIV(t *sim.Tape, rnd *sim.Rand) []byte { return randIV(t, rnd) }
+
 // c06Build builds the clear production from tape t (probes/events only when first is set).
-func c06Build(r *sim.Run, t *sim.Tape, scheme string, first bool) (*mp4.InitSegment, []*mp4.MediaSegment, *c06Prod, error) {
+func c06Build(r *sim.Run, t *sim.Tape, scheme string, first bool) (*mp4.InitSegment, []*mp4.MediaSegment, *C06Prod, error) {
 	rnd := t.Sub()
-	p := &c06Prod{}
+	p := &C06Prod{}
 	var init *mp4.InitSegment
 	var pool []work.SampleRec
 	synthetic := t.Chance(300)
@@ -283,15 +290,15 @@ func c06Build(r *sim.Run, t *sim.Tape, scheme string, first bool) (*mp4.InitSegm
 			if err := init.Moov.Trak.SetAVCDescriptor("avc1", avcC.SPSnalus, avcC.PPSnalus, true); err != nil {
 				return nil, nil, nil, err
 			}
-			p.codec, p.media = "avc1", "video"
+			p.Codec, p.Media = "avc1", "video"
 		} else {
 			init.AddEmptyTrack(48000, "audio", "en")
 			if err := init.Moov.Trak.SetAACDescriptor(aac.AAClc, 48000); err != nil {
 				return nil, nil, nil, err
 			}
-			p.codec, p.media = "mp4a", "audio"
+			p.Codec, p.Media = "mp4a", "audio"
 		}
-		p.trackID = 1
+		p.TrackID = 1
 		if first {
 			r.Probe("synthetic-payloads")
 		}
@@ -303,13 +310,13 @@ func c06Build(r *sim.Run, t *sim.Tape, scheme string, first bool) (*mp4.InitSegm
 		}
 		init = fi.Init
 		pool = src.Samples
-		p.codec, p.media, p.trackID = src.Codec, src.Media, src.TrackID
+		p.Codec, p.Media, p.TrackID = src.Codec, src.Media, src.TrackID
 		if first {
 			r.Probe("real-samples:" + src.Codec)
 		}
 	}
 	if first {
-		r.Event("codec", int(sim.HashString(p.codec)&0xff), btoi(synthetic))
+		r.Event("codec", int(sim.HashString(p.Codec)&0xff), btoi(synthetic))
 	}
 	nSegs := 1 + t.Draw(3)
 	var segs []*mp4.MediaSegment
@@ -321,16 +328,16 @@ func c06Build(r *sim.Run, t *sim.Tape, scheme string, first bool) (*mp4.InitSegm
 	seq := uint32(1)
 	for si := 0; si < nSegs; si++ {
 		seg := mp4.NewMediaSegment()
-		var frs []c06Frag
+		var frs []C06Frag
 		for fi := 0; fi < 1+t.Draw(3); fi++ {
-			frag, _ := mp4.CreateFragment(seq, p.trackID)
-			fr := c06Frag{from: len(p.log), seq: seq}
+			frag, _ := mp4.CreateFragment(seq, p.TrackID)
+			fr := C06Frag{From: len(p.Log), Seq: seq}
 			seq++
 			if t.Chance(400) { // foreign boxes in moof / traf, added through the API
 				if t.Bool() {
 					b, name := foreignBoxC06(t, rnd, "traf")
 					_ = frag.Moof.Traf.AddChild(b)
-					p.foreign = append(p.foreign, "traf:"+name)
+					p.Foreign = append(p.Foreign, "traf:"+name)
 				} else {
 					b, name := foreignBoxC06(t, rnd, "moof")
 					_ = frag.Moof.AddChild(b)
@@ -342,7 +349,7 @@ func c06Build(r *sim.Run, t *sim.Tape, scheme string, first bool) (*mp4.InitSegm
 							name += "(before traf)"
 						}
 					}
-					p.foreign = append(p.foreign, "moof:"+name)
+					p.Foreign = append(p.Foreign, "moof:"+name)
 				}
 			}
 			n := 1 + t.Draw(5)
@@ -351,7 +358,7 @@ func c06Build(r *sim.Run, t *sim.Tape, scheme string, first bool) (*mp4.InitSegm
 				if pool != nil {
 					rec = pool[poolPos%len(pool)]
 					poolPos++
-				} else if p.media == "video" {
+				} else if p.Media == "video" {
 					rec = work.SampleRec{Data: synthNALSample(t, rnd), Dur: 3000, Flags: mp4.NonSyncSampleFlags, Cto: int32(t.Draw(3)) * 3000}
 				} else {
 					b := make([]byte, []int{0, 1, 15, 16, 17, 31, 32, 33, 100, 367, 1024}[t.Draw(11)])
@@ -360,19 +367,19 @@ func c06Build(r *sim.Run, t *sim.Tape, scheme string, first bool) (*mp4.InitSegm
 				}
 				rec.Dts = dts
 				dts += uint64(rec.Dur)
-				p.log = append(p.log, rec)
+				p.Log = append(p.Log, rec)
 				frag.AddFullSample(mp4.FullSample{Sample: mp4.Sample{Flags: rec.Flags, Dur: rec.Dur, Size: uint32(len(rec.Data)), CompositionTimeOffset: rec.Cto}, DecodeTime: rec.Dts, Data: rec.Data})
 			}
-			fr.to = len(p.log)
+			fr.To = len(p.Log)
 			if t.Chance(250) {
 				frag.AddEmsg(&mp4.EmsgBox{Version: 1, TimeScale: 90000, PresentationTime: uint64(t.Draw(100000)), EventDuration: 1, ID: uint32(fi), SchemeIDURI: "urn:vsim", Value: "1"})
-				p.foreign = append(p.foreign, "top:emsg")
+				p.Foreign = append(p.Foreign, "top:emsg")
 			}
 			seg.AddFragment(frag)
 			frs = append(frs, fr)
 		}
 		segs = append(segs, seg)
-		p.frags = append(p.frags, frs)
+		p.Frags = append(p.Frags, frs)
 	}
 	return init, segs, p, nil
 }
@@ -435,7 +442,7 @@ func c06Run(r *sim.Run) {
 	iv := randIV(t, rnd)
 	r.Logf("scheme=%s iv=%x (%d bytes)", scheme, iv, len(iv))
 	r.Event("scheme", t.Draw(1), len(iv))
-	var p *c06Prod
+	var p *C06Prod
 	var err error
 	r.Guard("producer+encryptor", func() { p, err = c06Produce(r, scheme, keyBuf, iv) })
 	if err != nil {
@@ -446,14 +453,14 @@ func c06Run(r *sim.Run) {
 		return
 	}
 	k1 := append([]byte(nil), keyBuf...)
-	r.Logf("produced %s/%s: %d samples, %d segments, foreign=%v", p.codec, p.media, len(p.log), len(p.encSegs), p.foreign)
+	r.Logf("produced %s/%s: %d samples, %d segments, foreign=%v", p.Codec, p.Media, len(p.Log), len(p.EncSegs), p.Foreign)
 	r.NonTriv = true
 	if t.Chance(300) {
 		// a second, unrelated track is encrypted with ANOTHER key held in the SAME caller buffer, before anything
 		// is decrypted; then both are played back, each with its own key (a legal multi-step caller history)
 		rnd.Fill(keyBuf)
 		scheme2 := []string{"cenc", "cbcs"}[t.Draw(2)]
-		var p2 *c06Prod
+		var p2 *C06Prod
 		r.Guard("producer+encryptor(2)", func() { p2, err = c06Produce(r, scheme2, keyBuf, randIV(t, rnd)) })
 		if err != nil || p2 == nil {
 			r.Violate("c06-encrypt-error", "encrypting a second clear %s track failed: %v", scheme2, err)
@@ -477,61 +484,15 @@ func c06Run(r *sim.Run) {
 
 // c06Play is the player node: fetches the encrypted production (whole or init + segments in seeded order with
 // repeats), decrypts with key and applies the oracles against the clear production.
-func c06Play(r *sim.Run, p *c06Prod, key []byte) {
+func c06Play(r *sim.Run, p *C06Prod, key []byte) {
 	t := r.T
 	var err error
 	boxTree := t.Bool()
 	cfg := sim.DrawDelivery(t)
 	viaSR := t.Bool()
 	same := t.Bool()
-	check := func(who string, clear, dec []byte, frs []c06Frag, withInit bool) {
-		// a. samples via the independent demuxer and via the library
-		var trex map[uint32]*ref.Trex
-		if !withInit {
-			di, err := ref.DemuxStream(p.clearInit, nil)
-			if err != nil || di.Movie == nil {
-				panic(sim.HarnessAbort{Msg: "clear init not demuxable"})
-			}
-			trex = di.Movie.Trex
-		}
-		d, err := ref.DemuxStream(dec, trex)
-		if err != nil {
-			r.Violate("c06-output-walk", "%s: decrypted output is not a well-formed box stream: %v", who, err)
-			return
-		}
-		if len(d.Fragments) != len(frs) {
-			r.Violate("c06-fragcount", "%s: %d fragments after decryption, %d before", who, len(d.Fragments), len(frs))
-			return
-		}
-		for i, fr := range frs {
-			var got []gotSample
-			for _, ft := range d.Fragments[i].Tracks {
-				if ft.TrackID == p.trackID {
-					for _, s := range ft.Samples {
-						got = append(got, gotSample{Data: s.Bytes(dec), Size: s.Size, Dur: s.Dur, Flags: s.Flags, Cto: s.Cto, Dts: s.Dts})
-					}
-				}
-			}
-			cmpSamples(r, "c06", fmt.Sprintf("%s fragment seq=%d (reference demuxer)", who, fr.seq), 0, p.log[fr.from:fr.to], got)
-		}
-		// c. sample entry type restored
-		if withInit {
-			if got := stsdEntryType(dec, d.Top); got != p.codec {
-				r.Violate("c06-sample-entry", "%s: sample entry is %q after decryption, the clear track had %q", who, got, p.codec)
-			}
-		}
-		// d. inventory of non-protection boxes
-		ct, err := ref.Walk(clear, 0, int64(len(clear)), true)
-		if err != nil {
-			panic(sim.HarnessAbort{Msg: "clear stream not walkable"})
-		}
-		var only map[string]bool
-		if !boxTree {
-			only = map[string]bool{"ftyp": true, "moov": true, "styp": true, "emsg": true, "moof": true}
-		}
-		if diff := diffInventory(inventory(clear, ct, only), inventory(dec, d.Top, only)); diff != "" {
-			r.Violate("c06-inventory", "%s: boxes outside the protection signalling changed: %s", who, diff)
-		}
+	check := func(who string, clear, dec []byte, frs []C06Frag, withInit bool) {
+		C06Check(r, p, who, clear, dec, frs, withInit, boxTree)
 	}
 	reencode := func(f *mp4.File) []byte {
 		if boxTree {
@@ -547,13 +508,13 @@ func c06Play(r *sim.Run, p *c06Prod, key []byte) {
 	}
 	if same {
 		// init and all segments in one stream, as mp4ff-decrypt handles a complete file
-		enc := append([]byte(nil), p.encInit...)
-		clear := append([]byte(nil), p.clearInit...)
-		var frs []c06Frag
-		for i := range p.encSegs {
-			enc = append(enc, p.encSegs[i]...)
-			clear = append(clear, p.clearSegs[i]...)
-			frs = append(frs, p.frags[i]...)
+		enc := append([]byte(nil), p.EncInit...)
+		clear := append([]byte(nil), p.ClearInit...)
+		var frs []C06Frag
+		for i := range p.EncSegs {
+			enc = append(enc, p.EncSegs[i]...)
+			clear = append(clear, p.ClearSegs[i]...)
+			frs = append(frs, p.Frags[i]...)
 		}
 		r.Event("player-whole", btoi(viaSR), btoi(boxTree))
 		f, err := decodeWith(r, "encrypted stream", enc, viaSR, cfg)
@@ -578,7 +539,7 @@ func c06Play(r *sim.Run, p *c06Prod, key []byte) {
 		return
 	}
 	// init delivered separately; segments decrypted independently, in seeded order, with repeats
-	fi, err := decodeWith(r, "encrypted init", p.encInit, viaSR, cfg)
+	fi, err := decodeWith(r, "encrypted init", p.EncInit, viaSR, cfg)
 	if err != nil || fi.Init == nil {
 		r.Violate("c06-decode-encrypted", "decoding the encrypted init failed: %v", err)
 		return
@@ -590,13 +551,13 @@ func c06Play(r *sim.Run, p *c06Prod, key []byte) {
 		return
 	}
 	decInit := reencode(fi)
-	check("init alone", p.clearInit, decInit, nil, true)
-	nFetch := len(p.encSegs) + t.Draw(3)
-	seen := make([]int, len(p.encSegs))
+	check("init alone", p.ClearInit, decInit, nil, true)
+	nFetch := len(p.EncSegs) + t.Draw(3)
+	seen := make([]int, len(p.EncSegs))
 	for k := 0; k < nFetch; k++ {
 		si := k
-		if k >= len(p.encSegs) || t.Chance(400) {
-			si = t.Draw(len(p.encSegs))
+		if k >= len(p.EncSegs) || t.Chance(400) {
+			si = t.Draw(len(p.EncSegs))
 		}
 		seen[si]++
 		if seen[si] > 1 {
@@ -607,7 +568,7 @@ func c06Play(r *sim.Run, p *c06Prod, key []byte) {
 		}
 		r.Event("player-seg", si)
 		// every fetch delivers a fresh buffer (the slice path aliases its input and decryption works in place)
-		fetched := append([]byte(nil), p.encSegs[si]...)
+		fetched := append([]byte(nil), p.EncSegs[si]...)
 		fs, err := decodeWith(r, fmt.Sprintf("encrypted seg %d", si), fetched, viaSR, sim.DrawDelivery(t))
 		if err != nil {
 			r.Violate("c06-decode-encrypted", "decoding encrypted segment %d alone failed: %v", si, err)
@@ -620,7 +581,61 @@ func c06Play(r *sim.Run, p *c06Prod, key []byte) {
 				return
 			}
 		}
-		check(fmt.Sprintf("segment %d alone (boxTree=%v, fetch #%d)", si, boxTree, k), p.clearSegs[si], reencode(fs), p.frags[si], false)
+		check(fmt.Sprintf("segment %d alone (boxTree=%v, fetch #%d)", si, boxTree, k), p.ClearSegs[si], reencode(fs), p.Frags[si], false)
+	}
+}
+
+// C06Check applies the C06 oracles to a decrypted encoding `dec` of (part of) production p whose clear encoding is
+// `clear`: per fragment the independent demuxer must read back the clear sample log; the sample entry four-cc is
+// restored (withInit); the multiset of boxes outside the protection signalling is unchanged (boxTree: including
+// top-level foreign boxes; otherwise only what segment-mode encoding keeps).
+func C06Check(r *sim.Run, p *C06Prod, who string, clear, dec []byte, frs []C06Frag, withInit, boxTree bool) {
+	// a. samples via the independent demuxer and via the library
+	var trex map[uint32]*ref.Trex
+	if !withInit {
+		di, err := ref.DemuxStream(p.ClearInit, nil)
+		if err != nil || di.Movie == nil {
+			panic(sim.HarnessAbort{Msg: "clear init not demuxable"})
+		}
+		trex = di.Movie.Trex
+	}
+	d, err := ref.DemuxStream(dec, trex)
+	if err != nil {
+		r.Violate("c06-output-walk", "%s: decrypted output is not a well-formed box stream: %v", who, err)
+		return
+	}
+	if len(d.Fragments) != len(frs) {
+		r.Violate("c06-fragcount", "%s: %d fragments after decryption, %d before", who, len(d.Fragments), len(frs))
+		return
+	}
+	for i, fr := range frs {
+		var got []gotSample
+		for _, ft := range d.Fragments[i].Tracks {
+			if ft.TrackID == p.TrackID {
+				for _, s := range ft.Samples {
+					got = append(got, gotSample{Data: s.Bytes(dec), Size: s.Size, Dur: s.Dur, Flags: s.Flags, Cto: s.Cto, Dts: s.Dts})
+				}
+			}
+		}
+		cmpSamples(r, "c06", fmt.Sprintf("%s fragment seq=%d (reference demuxer)", who, fr.Seq), 0, p.Log[fr.From:fr.To], got)
+	}
+	// c. sample entry type restored
+	if withInit {
+		if got := stsdEntryType(dec, d.Top); got != p.Codec {
+			r.Violate("c06-sample-entry", "%s: sample entry is %q after decryption, the clear track had %q", who, got, p.Codec)
+		}
+	}
+	// d. inventory of non-protection boxes
+	ct, err := ref.Walk(clear, 0, int64(len(clear)), true)
+	if err != nil {
+		panic(sim.HarnessAbort{Msg: "clear stream not walkable"})
+	}
+	var only map[string]bool
+	if !boxTree {
+		only = map[string]bool{"ftyp": true, "moov": true, "styp": true, "emsg": true, "moof": true}
+	}
+	if diff := diffInventory(inventory(clear, ct, only), inventory(dec, d.Top, only)); diff != "" {
+		r.Violate("c06-inventory", "%s: boxes outside the protection signalling changed: %s", who, diff)
 	}
 }
 
